@@ -14,6 +14,7 @@ import Rare.Proofs.C08Sites
 import Rare.Proofs.C08Size
 import Rare.Proofs.C08Doubling
 import Rare.Proofs.C08ArrayBound
+import Rare.Proofs.C08Unmodelled
 import Rare.Proofs.C08Format
 import Rare.Proofs.C08TimeW
 import Rare.Proofs.C08TimeSeam
@@ -79,6 +80,50 @@ theorem std_safe : ∀ p ∈ safeTable, SafeBuilder p.2 := by
   · exact Funcs.Math.math_safe p h (hn' _ fun x hx => by simp [unmodelledNames, hx])
   · simp [Funcs.Time.table] at h
   · exact Funcs.Misc.misc_safe p h (hn' _ fun x hx => by simp [unmodelledNames, hx])
+
+/-- **The ten helpers outside `safeTable` stop only at their library call**: for each of `pow log10 log2 ln upper
+    lower !` (and `bytesize bytesizesi downscale`, see below) the builder the registry resolves, given argument expressions that cannot
+    panic, never fails at compile time, and the stage it returns has no panic node except an explicit
+    `unmodelled:…` marker (`math.Pow` / `math.Log*` on parsed floats, the Unicode case tables on non-ASCII input,
+    the float64 rendering of a formula value): every arity check, constant
+    evaluation, number parse and `<…>` marker in front of the library call is panic-free for all inputs; evaluated in
+    any context such a stage returns or stops at a marker.  For `bytesize bytesizesi downscale` the builder the
+    registry resolves is the binary64 one of `Funcs/Float.lean`, a full `SafeBuilder` without markers (they are
+    outside `safeTable` only by name: the shadowed integer-only version of `Funcs/Strings.lean` has a marker).
+    (One level deep: the arguments are assumed panic-free
+    WITHOUT markers; nesting one of the ten inside another helper is covered by the correspondence only.) -/
+theorem unmodelled_helpers_safe_mod :
+    (∀ n ∈ unmodelledNames, ∃ b, lookupTable stdTable n = some b ∧ SafeUBuilder b) ∧
+    (∀ (s : Stage), SafeU s → ∀ ctx : Ctx, (∃ v, s.run ctx = .ok v) ∨ (∃ w, s.run ctx = .error ("unmodelled:" ++ w))) ∧
+    (∀ n ∈ ["bytesize", "bytesizesi", "downscale"], ∃ b, lookupTable stdTable n = some b ∧ SafeBuilder b) := by
+  refine ⟨?_, fun s h ctx => h.run ctx, ?_⟩
+  rotate_left
+  · intro n hn
+    simp only [List.mem_cons, List.not_mem_nil, or_false] at hn
+    rcases hn with rfl | rfl | rfl <;> exact ⟨_, rfl, Funcs.Float.unitHelper_safe _ _ _ _⟩
+  intro n hn
+  simp only [unmodelledNames, Funcs.Arith.arithUnmodelled, Funcs.Float.floatUnmodelled, Funcs.Strings.stringsUnmodelled,
+    Funcs.Misc.miscUnmodelled, Funcs.Range.rangeUnmodelled, Funcs.Math.mathUnmodelled, List.append_nil, List.cons_append,
+    List.nil_append, List.mem_cons, List.not_mem_nil, or_false] at hn
+  rcases hn with rfl | rfl | rfl | rfl | rfl | rfl | rfl | rfl | rfl | rfl
+  · exact ⟨_, rfl, floatHelperU_safeU "pow"⟩
+  · exact ⟨_, rfl, unaryU_safeU "log10"⟩
+  · exact ⟨_, rfl, unaryU_safeU "log2"⟩
+  · exact ⟨_, rfl, unaryU_safeU "ln"⟩
+  · exact ⟨_, rfl, caseHelper_safeU _⟩
+  · exact ⟨_, rfl, caseHelper_safeU _⟩
+  · exact ⟨_, rfl, safeU_of_safeBuilder (Funcs.Float.unitHelper_safe _ _ _ _)⟩
+  · exact ⟨_, rfl, safeU_of_safeBuilder (Funcs.Float.unitHelper_safe _ _ _ _)⟩
+  · exact ⟨_, rfl, safeU_of_safeBuilder (Funcs.Float.unitHelper_safe _ _ _ _)⟩
+  · exact ⟨_, rfl, kfMath_safeU⟩
+
+example : ∃ built, Funcs.Float.floatHelperU "pow" [.ret (ascii "2"), Comp.match_ 0] = .ok built ∧
+    ∀ s, built.stage = some s → SafeU s := floatHelperU_safeU "pow" _ (by
+  intro a ha
+  simp only [List.mem_cons, List.not_mem_nil, or_false] at ha
+  rcases ha with rfl | rfl
+  · exact .ret _
+  · exact Safe.match_ 0)
 
 /-- The registry of the proved-safe helpers. -/
 def safeRegistry : Registry := mkRegistry safeTable []
